@@ -56,3 +56,17 @@ CHECKS["C16"] = dict(
     assumptions=["interleaving between client-datagram and reply reports of one association is not asserted (two goroutines)"],
     units=[unit("props", ["Metrics", "MetricsExpiry"], "C16")],
 )
+
+CHECKS["C05"] = dict(
+    level="exploration",
+    rule="(Func) rapid-generated addresses: near (+-3) the first/last address of every IANA special-purpose block, inside blocks, uniformly random IPv4/IPv6, "
+         "in 4-byte, 16-byte and IPv4-mapped forms, judged by an independent prefix-table oracle (must-reject / must-accept / not judged). "
+         "(Sweep) enumeration of IPv4: quick = every block boundary +-300 and a stride of 4099; thorough = all 2^32 addresses in both byte forms (exhaustive for that sub-domain). "
+         "(TCP, UDP) generated SOCKS destinations through the default dialer/validator: IPv4/IPv6/mapped literals, empty and IP-literal domains (incl. zoned link-local), "
+         "hostnames answered by an in-process DNS with 0..4 mixed answers, non-local private/CGNAT/multicast literals; UDP: the forbidden datagram at position 1..7 of a live association. "
+         "Sinks are bound on every local forbidden address; only an observed arrival is a violation; the local allowed address 192.0.2.2 is the positive control. "
+         "Non-trivial = address within 3 of a block boundary or in mapped/16-byte form (Func); must-reject or boundary address (Sweep, distinct by construction); "
+         "mapped/zoned/IP-literal-domain/empty/multi-answer destination or forbidden datagram at position >=2 (TCP/UDP).",
+    assumptions=["non-local forbidden destinations have no sink: judged by reported status only", "address classes available on this host are detected at run time"],
+    units=[unit("props", ["Func", "TCP", "UDP"], "C05"), unit("props", ["Sweep"], "C05", shards=(4, 16), timeout=(240, 3000))],
+)
